@@ -222,6 +222,7 @@ type cell struct {
 	errf    int // what the ToHTTPError translator answers; 500 + defaultF: the stock translator
 	defF    bool
 	ver     string
+	accept  string   // Accept header of the request (matters for gin's negotiated render)
 	ctxErrs []ctxErr // gin only: what an earlier middleware attaches with c.Error before c.Next()
 }
 
@@ -250,6 +251,69 @@ func (e ctxErr) attach(c *gin.Context) {
 	default:
 		c.Error(errors.New("context error of an earlier middleware"))
 	}
+}
+
+// render names the render the handler is expected to use (the Coq side recomputes it from
+// output_encoding / backend encodings / Accept with its model of getRender and compares)
+func (c cell) render() string {
+	reg := func(name string) string {
+		switch name {
+		case "string":
+			return "RString"
+		case "json":
+			return "RJson"
+		case "no-op":
+			return "RNoop"
+		case "json-collection":
+			return "RCollection"
+		}
+		if c.impl == "Gin" {
+			switch name {
+			case "xml":
+				return "RXml"
+			case "yaml":
+				return "RYaml"
+			case "negotiate":
+				switch c.accept {
+				case "application/xml":
+					return "RXml"
+				case "text/plain", "application/x-yaml":
+					return "RYaml"
+				}
+				return "RJson"
+			}
+		}
+		return ""
+	}
+	fb := "RJson"
+	if c.rv.nBackends == 1 {
+		if r := reg(c.rv.backEnc); r != "" {
+			fb = r
+		}
+	}
+	if c.rv.outputEnc == "" {
+		return fb
+	}
+	if r := reg(c.rv.outputEnc); r != "" {
+		return r
+	}
+	return fb
+}
+
+func acceptCoq(a string) string {
+	switch a {
+	case "":
+		return "AcNone"
+	case "application/json":
+		return "AcJson"
+	case "text/plain":
+		return "AcPlain"
+	case "application/xml":
+		return "AcXml"
+	case "application/x-yaml":
+		return "AcYaml"
+	}
+	return "AcOther"
 }
 
 func validCode(c int) bool { return c >= 100 && c <= 999 }
@@ -284,7 +348,7 @@ func (c cell) inFinding() bool {
 	nonempty := !r.dataNil && len(r.data()) > 0
 	effErr := c.err != nil || c.ctxDone != 0
 	reached := c.impl == "Gin" || nonempty || !effErr
-	noopAdds := c.rv.coq == "RNoop" && reached
+	noopAdds := c.render() == "RNoop" && reached
 	if noopAdds {
 		// no reply at all for a status net/http refuses
 		if c.impl == "Gin" {
@@ -394,7 +458,7 @@ func newInstance(cfg cell, specs []cell) *instance {
 func (in *instance) cellOf(k int) cell {
 	c := in.cfg
 	sp := in.specs[k]
-	c.resp, c.err, c.ver = sp.resp, sp.err, sp.ver
+	c.resp, c.err, c.ver, c.accept = sp.resp, sp.err, sp.ver, sp.accept
 	c.ctxErrs = nil
 	if in.cfg.impl == "Gin" {
 		c.ctxErrs = sp.ctxErrs
@@ -410,6 +474,9 @@ func (in *instance) serve(k int) (obs observation) {
 	rec := httptest.NewRecorder()
 	req := httptest.NewRequest("GET", "/a", nil)
 	req.Header.Set("X-Case", strconv.Itoa(k))
+	if a := in.specs[k].accept; a != "" {
+		req.Header.Set("Accept", a)
+	}
 	if in.cfg.ctxDone != 1 && in.specs[k].ctxDone == 2 {
 		ctx, cancel := context.WithCancel(req.Context())
 		cancel()
@@ -486,7 +553,7 @@ func (c cell) coqInput() string {
 		ces[i] = e.coq()
 	}
 	return fmt.Sprintf("(mk_input %s %s %s %s %s %s %s %s %s)",
-		c.impl, c.rv.coq, resp, perr, emit.Z(int64(c.ttl)), emit.Bool(c.ctxDone != 0), emit.Z(int64(c.errf)), emit.Str(c.ver), emit.List(ces))
+		c.impl, c.render(), resp, perr, emit.Z(int64(c.ttl)), emit.Bool(c.ctxDone != 0), emit.Z(int64(c.errf)), emit.Str(c.ver), emit.List(ces))
 }
 
 func (o observation) coq() string {
@@ -508,7 +575,7 @@ func (o observation) coq() string {
 
 func (c cell) js() map[string]interface{} {
 	m := map[string]interface{}{
-		"impl": c.impl, "render": c.rv.coq, "output_encoding": c.rv.outputEnc, "backend_encoding": c.rv.backEnc,
+		"impl": c.impl, "render": c.render(), "accept": c.accept, "output_encoding": c.rv.outputEnc, "backend_encoding": c.rv.backEnc,
 		"backends": c.rv.nBackends, "cache_ttl_ns": int64(c.ttl), "ctx_done": c.ctxDone, "errf": c.errf,
 		"default_to_http_error": c.defF, "version_header_value": c.ver,
 	}
@@ -548,7 +615,7 @@ func (o observation) js() map[string]interface{} {
 }
 
 func (c cell) nontrivial() bool {
-	if c.err != nil || c.ctxDone != 0 || c.resp == nil || c.ttl != 0 || c.rv.coq != "RJson" {
+	if c.err != nil || c.ctxDone != 0 || c.resp == nil || c.ttl != 0 || c.render() != "RJson" {
 		return true
 	}
 	r := c.resp
@@ -625,7 +692,11 @@ func main() {
 	add := func(c cell, stream string) { addObs(c, c.run(), stream) }
 	addObs = func(c cell, o observation, stream string) {
 		flagged := c.inFinding()
-		term := emit.App("CCase", emit.Bool(flagged), c.coqInput(), o.coq())
+		backs := make([]string, c.rv.nBackends)
+		for i := range backs {
+			backs[i] = c.rv.backEnc
+		}
+		term := emit.App("CCase", emit.Bool(flagged), emit.Str(c.rv.outputEnc), emit.StrList(backs), acceptCoq(c.accept), c.coqInput(), o.coq())
 		js := map[string]interface{}{"stream": stream, "input": c.js(), "observed": o.js()}
 		sig := ""
 		if flagged {
@@ -634,7 +705,7 @@ func main() {
 		}
 		w.Count("stream:" + stream)
 		w.Count("impl:" + c.impl)
-		w.Count("render:" + c.rv.coq)
+		w.Count("render:" + c.render())
 		switch {
 		case c.resp == nil:
 			w.Count("resp:nil")
@@ -911,6 +982,48 @@ func main() {
 		}
 	}
 
+	// ---- 3b. every output encoding: what getRender selects (output_encoding, encoding of the
+	//          only backend, unknown names, gin's xml / yaml / negotiate with Accept headers) ----
+	encVariants := []renderVariant{}
+	for _, oe := range []string{"", "json", "string", "no-op", "json-collection", "xml", "yaml", "negotiate", "bogus", "JSON"} {
+		for _, be := range []string{"", "json", "string", "no-op", "json-collection", "xml", "yaml", "negotiate", "safejson"} {
+			for _, nb := range []int{1, 2} {
+				if nb == 2 && !(oe == "" || oe == "bogus" || oe == "xml") {
+					continue
+				}
+				encVariants = append(encVariants, renderVariant{"", oe, be, nb})
+			}
+		}
+	}
+	accepts := []string{"", "application/json", "text/plain", "application/xml", "application/x-yaml", "image/png", "*/*"}
+	encShapes := []*respSpec{nil,
+		{dataJS: dataEmpty, complete: true, status: 200, io: strp("e")},
+		{dataJS: dataPool[2], complete: true, status: 200, io: strp("c")},
+		{dataJS: dataPool[3], complete: false, status: 201, io: strp("p"), meta: map[string][]string{"X-Meta": {"m"}}}}
+	for vi, v := range encVariants {
+		for ii, impl := range impls {
+			usesAccept := impl == "Gin" && (v.outputEnc == "negotiate" || (v.backEnc == "negotiate" && v.nBackends == 1))
+			for ai, a := range accepts {
+				if !usesAccept && ai != (vi+ii)%len(accepts) {
+					continue
+				}
+				for si, sh := range encShapes {
+					if !cfg.Thorough() && si != (vi+ii+ai)%len(encShapes) && si != 2 {
+						continue
+					}
+					c := cell{impl: impl, rv: v, errf: 500, defF: true, ver: "Version undefined", accept: a, resp: sh}
+					if (vi+si)%2 == 0 {
+						c.ttl = time.Hour
+					}
+					if si == 0 && vi%2 == 0 {
+						c.err = &errSpec{kind: "status", code: 404, msg: "nf"}
+					}
+					add(c, "encodings")
+				}
+			}
+		}
+	}
+
 	// ---- 4. structured random stream over the full product ----
 	n := 2200
 	if cfg.Thorough() {
@@ -943,6 +1056,12 @@ func main() {
 		c := cell{impl: impls[r.Intn(3)]}
 		rn := renderNames[[]int{0, 0, 0, 1, 1, 2, 3}[r.Intn(7)]]
 		c.rv = renders[rn][r.Intn(len(renders[rn]))]
+		if r.Chance(1, 8) {
+			c.rv = encVariants[r.Intn(len(encVariants))]
+		}
+		if r.Chance(1, 4) {
+			c.accept = accepts[r.Intn(len(accepts))]
+		}
 		c.ttl = ttlPool[r.Intn(len(ttlPool))]
 		if r.Chance(1, 3) {
 			c.ttl = 0
@@ -1074,5 +1193,5 @@ func main() {
 		}
 	}
 
-	w.Close("real gin CustomErrorEndpointHandler, mux CustomEndpointHandlerWithHTTPError and the same behind mux.DefaultEngine (HTTPErrorInterceptor), proxy stubbed by a scripted (response, error) pair; corpus; exhaustive core product impl(3) x render x response shape (nil | {empty,non-empty} x complete x metadata headers {none,unrelated,colliding,...}) x error kinds x ttl x context expired; error status sweep 100..999 (+ invalid codes), translator answers, no-op metadata statuses; error values incl. errors that only WRAP a status error (fmt %w one and two levels, errors.Join, Unwrap() []error, Is/As methods, lura's merge error) on all implementations; gin also behind a front middleware that leaves 0-2 errors in c.Errors without aborting (corpus, half of the gin core product, every 4th swept status, 2/5 of the random gin cells, reuse sequences); instance reuse: one handler serving a sequence of different (response, error) pairs (telling order in the corpus, 60 random sequences of 3-6 steps; thorough 600) and the same handler hit from 12 goroutines (distinct (input, observation) pairs); structured random over the full product (renders json/no-op/string/json-collection reached through output_encoding or the backend encoding, nil data map, ttl incl. sub-second/negative, version header value); compared: status, values of X-Krakend-Completed / Cache-Control / X-Krakend, body (JSON tree or raw bytes); nontrivial = anything but (no error, live context, non-empty complete response without metadata, ttl 0, json render)", true)
+	w.Close("real gin CustomErrorEndpointHandler, mux CustomEndpointHandlerWithHTTPError and the same behind mux.DefaultEngine (HTTPErrorInterceptor), proxy stubbed by a scripted (response, error) pair; corpus; exhaustive core product impl(3) x render x response shape (nil | {empty,non-empty} x complete x metadata headers {none,unrelated,colliding,...}) x error kinds x ttl x context expired; error status sweep 100..999 (+ invalid codes), translator answers, no-op metadata statuses; every output encoding: 10 output_encoding x 9 backend encodings x 1-2 backends (registered, unknown, gin-only xml/yaml/negotiate with 7 Accept headers) with the selected render recomputed by the Coq model of getRender; error values incl. errors that only WRAP a status error (fmt %w one and two levels, errors.Join, Unwrap() []error, Is/As methods, lura's merge error) on all implementations; gin also behind a front middleware that leaves 0-2 errors in c.Errors without aborting (corpus, half of the gin core product, every 4th swept status, 2/5 of the random gin cells, reuse sequences); instance reuse: one handler serving a sequence of different (response, error) pairs (telling order in the corpus, 60 random sequences of 3-6 steps; thorough 600) and the same handler hit from 12 goroutines (distinct (input, observation) pairs); structured random over the full product (renders json/no-op/string/json-collection reached through output_encoding or the backend encoding, nil data map, ttl incl. sub-second/negative, version header value); compared: status, values of X-Krakend-Completed / Cache-Control / X-Krakend, body (JSON tree or raw bytes); nontrivial = anything but (no error, live context, non-empty complete response without metadata, ttl 0, json render)", true)
 }
